@@ -156,6 +156,11 @@ def regsWhy (s s' : St CHeap) : Option String :=
 
 /-! ## the command -/
 
+/-- the register part of `Vm.onError` (stack wiped at its length, `sp = bp = 0`, `ep = usize::MAX`, `acc` undefined) -/
+def abandonRegs (s : St CHeap) : St CHeap :=
+  { s with stack := { cells := List.replicate s.stack.cells.length .undefined, sp := 0 },
+           bp := 0, ep := usizeMax, acc := .undefined }
+
 def fuelOf (d : Datum) : Nat := 4 * VmCompile.datumSize d + 16
 
 def answerOk (e : Datum) (s s' : St CHeap) (entry : Nat) (ipO : Nat) (rendered : String) : String :=
@@ -206,7 +211,12 @@ def handle (args : List String) : Option String :=
       let s := mkSt r0 h0
       let s' := mkSt { r1 with ipL := r0.ipL, ipO := r0.ipO } h1
       match mode with
-      | "ok" => pure (answerOk e s s' r1.ipL r1.ipO rendered)
+      | "ok" =>
+        -- since fix f829f65: an ACCEPTED form abandons an evaluation that is still suspended (sp ≠ 0): the real
+        -- `prepare_eval` then first resets the registers and wipes the stack exactly as the error path does
+        -- (`Vm.onError`); on an idle machine (sp = 0) it leaves them alone. `Installs` is judged from there.
+        let sA := if s.stack.sp = 0 then s else abandonRegs s
+        pure (answerOk e sA s' r1.ipL r1.ipO rendered)
       | "err" => pure (answerErr e s s')
       | "errgc" => pure (match regsWhy s (mkSt r1 h1) with | some w => w | none => "ok")
       | _ => none
